@@ -11,6 +11,7 @@ and the id-freshness side condition (SHA-256 collision freedom) under which `WF`
 -/
 import Irismod.Model.MtGenesis
 import Irismod.Spec.C15
+import Irismod.Model.RecordGenesis
 
 namespace Irismod.Spec.C12.Mt
 open Irismod Irismod.Mt Irismod.MtGenesis
@@ -65,3 +66,39 @@ def RoundTrip (s : State) : Prop :=
   ∃ s', importGenesis (exportGenesis s) = .ok s' ∧ ObsEq s' s ∧ exportGenesis s' = exportGenesis s
 
 end Irismod.Spec.C12.Mt
+
+/-! ## record -/
+namespace Irismod.Spec.C12.Record
+open Irismod Irismod.Record Irismod.RecordGenesis
+
+/-- the C12 statement for one record store: the export imports, and every id answers as before -/
+def IdsPreserved (s : State) : Prop :=
+  ∃ s', importGenesis (exportGenesis s) = .ok s' ∧ ∀ id, getRecord s' id = getRecord s id
+
+/-- … for every reachable store. FALSE in the code (finding F-gen-3): see
+`Props.C12.record_roundtrip_fails`. -/
+def RoundTripAll : Prop := ∀ ops : List Op, IdsPreserved (run {} ops)
+
+/-! the witness: two transactions, one record each -/
+def wC (d : String) : Content := { digest := d, algo := "sha256", uri := "", metadata := "" }
+def wM (d : String) : Msg := { creator := "A0", creatorOk := true, contents := [wC d] }
+def wR0 : Rec := mkRec (txHashOf "t1".toUTF8) (wM "d0")
+def wR1 : Rec := mkRec (txHashOf "t2".toUTF8) (wM "d1")
+def wOps : List Op := [.tx "t1".toUTF8 [wM "d0"], .tx "t2".toUTF8 [wM "d1"]]
+
+/-- ids on the exporting chain (counters 0, 1) and the ids the importing chain derives for the same
+two records visited in store order (`wR1` first: counters 0, 1 again, but swapped) -/
+def wI0 : Id := idOfPre (preimage wR0 0)
+def wI1 : Id := idOfPre (preimage wR1 1)
+def wJ0 : Id := idOfPre (preimage wR1 0)
+def wJ1 : Id := idOfPre (preimage wR0 1)
+
+/-- closed facts about four SHA-256 values: the store order of the two records is the reverse
+of their creation order, and the first record's id is neither of the re-derived ids. The
+kernel cannot evaluate SHA-256; `Audit/C12.lean` evaluates this with `#eval`, and the same
+history is replayed on the real keeper (corpus/C12/F-gen-3.ops). -/
+def WitnessFacts : Prop := wI0 ≠ wI1 ∧ idLt wI0 wI1 = false ∧ wI0 ≠ wJ0 ∧ wI0 ≠ wJ1
+
+instance : Decidable WitnessFacts := by unfold WitnessFacts; exact inferInstance
+
+end Irismod.Spec.C12.Record
